@@ -9,7 +9,6 @@ use crate::{
 
 use nom::{
     branch::alt,
-    bytes::complete::tag,
     character::complete::u128,
     combinator::{into, map, opt},
     multi::many1,
@@ -18,7 +17,7 @@ use nom::{
 };
 
 use super::{
-    common::{in_braces, in_parentheses, skip_ws, skip_ws_and_comments, value_reference},
+    common::{in_braces, in_parentheses, keywords, skip_ws, skip_ws_and_comments, value_reference},
     constraint::constraints,
     error::ParserResult,
     RELATIVE_OID,
@@ -66,7 +65,7 @@ pub fn object_identifier(input: Input<'_>) -> ParserResult<'_, ASN1Type> {
     map(
         into(preceded(
             // TODO: store info whether the object id is relative
-            skip_ws_and_comments(alt((tag(OBJECT_IDENTIFIER), tag(RELATIVE_OID)))),
+            skip_ws_and_comments(alt((keywords(OBJECT_IDENTIFIER), keywords(RELATIVE_OID)))),
             opt(skip_ws_and_comments(constraints)),
         )),
         ASN1Type::ObjectIdentifier,
